@@ -22,26 +22,66 @@ theorem appendOpt_none_left {α : Type} (x : Option (List α)) : appendOpt none 
 theorem unknownsOf_cons (a : SCodeAttr) (as : List SCodeAttr) : unknownsOf (a :: as) = unknownsOf [a] ++ unknownsOf as := by
   cases a <;> simp [unknownsOf]
 
+def framesCount (as : List SCodeAttr) : Nat := (as.filter isFramesAttr).length
+
+theorem framesCount_cons (a : SCodeAttr) (as : List SCodeAttr) :
+    framesCount (a :: as) = (if isFramesAttr a then 1 else 0) + framesCount as := by
+  simp only [framesCount, List.filter_cons]
+  cases isFramesAttr a <;> simp <;> omega
+
+theorem framesOf_cons_not (a : SCodeAttr) (as : List SCodeAttr) (h : isFramesAttr a = false) : framesOf (a :: as) = framesOf as := by
+  cases a <;> simp [framesOf, isFramesAttr] at h ⊢
+
+theorem framesOf_none (as : List SCodeAttr) (h : framesCount as = 0) : framesOf as = [] := by
+  induction as with
+  | nil => rfl
+  | cons a as ih =>
+    rw [framesCount_cons] at h
+    cases ha : isFramesAttr a with
+    | true => simp [ha] at h
+    | false => rw [framesOf_cons_not a as ha]; exact ih (by simp [ha] at h; exact h)
+
 theorem readCodeAttrs_ok (p : Pool) (pos : Nat → Nat) (n cl : Nat) (hp : PosOk pos n cl)
-    (hmono : ∀ a b, a ≤ b → b ≤ n → pos a ≤ pos b) (as : List SCodeAttr) (has : ∀ a ∈ as, a.Legal p n)
+    (hmono : ∀ a b, a ≤ b → b ≤ n → pos a ≤ pos b) (hmonoS : ∀ a b, a < b → b ≤ n → pos a < pos b)
+    (as : List SCodeAttr) (has : ∀ a ∈ as, a.Legal p n pos)
     (st : CodeAttrState) (r : Bytes) (hwf : st.labels.WF) (hcl : st.labels.codeLength = cl)
-    (hcnt : st.labels.count + (as.map SCodeAttr.labelRefs).sum < 65536) :
+    (hcnt : st.labels.count + (as.map SCodeAttr.labelRefs).sum < 65536)
+    (hone : framesCount as ≤ 1) (hfr : st.frames.isSome = true → framesCount as = 0) :
     ∃ st', readCodeAttrs p as.length st (as.flatMap (SCodeAttr.encode pos) ++ r) = ok (st', r) ∧ st'.labels.WF ∧
-      Labels.Le st.labels st'.labels ∧ st'.frames = st.frames ∧ st'.rvta = st.rvta ∧ st'.ritva = st.ritva ∧
+      Labels.Le st.labels st'.labels ∧ st'.rvta = st.rvta ∧ st'.ritva = st.ritva ∧
       st'.attrs = st.attrs ++ unknownsOf as ∧ (∀ pc ∈ as.flatMap (attrRefs pos), (st'.labels.get pc).isSome = true) ∧
       ∀ lf, Labels.Le st'.labels lf →
-        st'.lines = appendOpt st.lines (linesRaw lf pos as) ∧ st'.locals = appendOpt st.locals (localsRaw lf pos as) := by
+        st'.lines = appendOpt st.lines (linesRaw lf pos as) ∧ st'.locals = appendOpt st.locals (localsRaw lf pos as) ∧
+        st'.frames.getD [] = (if framesCount as = 0 then st.frames.getD [] else framesRaw lf pos (framesOf as)) := by
   induction as generalizing st with
   | nil =>
-    exact ⟨st, by simp [readCodeAttrs], hwf, Labels.Le.refl _, rfl, rfl, rfl, by simp [unknownsOf], by simp,
-      fun lf _ => by simp [linesRaw, localsRaw, appendOpt]⟩
+    exact ⟨st, by simp [readCodeAttrs], hwf, Labels.Le.refl _, rfl, rfl, by simp [unknownsOf], by simp,
+      fun lf _ => by simp [linesRaw, localsRaw, appendOpt, framesCount]⟩
   | cons a as ih =>
     simp only [List.map_cons, List.sum_cons] at hcnt
-    obtain ⟨st1, h1, hwf1, hle1, hc1, hf1, hv1, hi1, ha1, hr1, hl1⟩ := readCodeAttr_ok p pos n cl hp hmono a (has a (by simp)) st
-      (as.flatMap (SCodeAttr.encode pos) ++ r) hwf hcl (by omega)
-    obtain ⟨st2, h2, hwf2, hle2, hf2, hv2, hi2, ha2, hr2, hl2⟩ := ih (fun b hb => has b (by simp [hb])) st1 hwf1
-      (hle1.1.symm.trans hcl) (by omega)
-    refine ⟨st2, ?_, hwf2, hle1.trans hle2, hf2.trans hf1, hv2.trans hv1, hi2.trans hi1, ?_, ?_, ?_⟩
+    rw [framesCount_cons] at hone hfr
+    have hfra : isFramesAttr a = true → st.frames = none := by
+      intro h
+      cases hs : st.frames with
+      | none => rfl
+      | some _ => have := hfr (by simp [hs]); simp [h] at this
+    obtain ⟨st1, h1, hwf1, hle1, hc1, hv1, hi1, ha1, hr1, hl1⟩ := readCodeAttr_ok p pos n cl hp hmono a (has a (by simp)) hmonoS st
+      (as.flatMap (SCodeAttr.encode pos) ++ r) hwf hcl (by omega) hfra
+    have hfr1 : st1.frames.isSome = true → framesCount as = 0 := by
+      intro h
+      have := (hl1 st1.labels (Labels.Le.refl _)).2.2
+      cases hia : isFramesAttr a with
+      | true => simp [hia] at hone; omega
+      | false =>
+        have e : st1.frames = st.frames := by
+          cases a <;> simp [isFramesAttr] at hia <;> simpa using this
+        rw [e] at h
+        have := hfr h
+        simp [hia] at this
+        exact this
+    obtain ⟨st2, h2, hwf2, hle2, hv2, hi2, ha2, hr2, hl2⟩ := ih (fun b hb => has b (by simp [hb])) st1 hwf1
+      (hle1.1.symm.trans hcl) (by omega) (by have := hone; split at this <;> omega) hfr1
+    refine ⟨st2, ?_, hwf2, hle1.trans hle2, hv2.trans hv1, hi2.trans hi1, ?_, ?_, ?_⟩
     · simp only [List.length_cons, readCodeAttrs, List.flatMap_cons, List.append_assoc, h1, ok_bind, h2]
     · rw [ha2, ha1, unknownsOf_cons a as, List.append_assoc]
     · intro pc hpc
@@ -50,10 +90,21 @@ theorem readCodeAttrs_ok (p : Pool) (pos : Nat → Nat) (n cl : Nat) (hp : PosOk
       · exact isSome_of_le hle2 (hr1 pc hpc)
       · exact hr2 pc hpc
     · intro lf hlf
-      obtain ⟨e1, e2⟩ := hl1 lf (hle2.trans hlf)
-      obtain ⟨e3, e4⟩ := hl2 lf hlf
+      obtain ⟨e1, e2, e5⟩ := hl1 lf (hle2.trans hlf)
+      obtain ⟨e3, e4, e6⟩ := hl2 lf hlf
       rw [e3, e1, e4, e2, appendOpt_step_lines, appendOpt_step_locals]
-      exact ⟨rfl, rfl⟩
+      refine ⟨rfl, rfl, ?_⟩
+      rw [e6, framesCount_cons]
+      cases hia : isFramesAttr a with
+      | true =>
+        have hz : framesCount as = 0 := by simp [hia] at hone; omega
+        cases a <;> simp [isFramesAttr] at hia
+        simp [hz, e5, framesOf]
+      | false =>
+        have e : st1.frames = st.frames := by
+          cases a <;> simp [isFramesAttr] at hia <;> simpa using e5
+        rw [framesOf_cons_not a as hia, e]
+        simp
 
 /-- the raw (label-id) form of what `read_code` delivers for a layout, relative to the final label table -/
 def Spec.CodeLayout.raw (c : CodeLayout) (lf : Labels) : Code :=
